@@ -14,7 +14,7 @@
 (*                patterns; arguments at the edges.                        *)
 (***************************************************************************)
 EXTENDS BVRef, TLC, Json
-CONSTANTS N, Mode, FamilyLens
+CONSTANTS N, Mode, FamilyLens, RLClasses, RLMaxRuns, RLTails
 VARIABLE B
 
 Undefined == -7
@@ -31,6 +31,20 @@ Patterns(L) == {<< >>, <<<<0, L>>>>, Evens(L), <<<<L \div 3, (L \div 3) + 1>>>>}
                \cup UNION {AllBut(L, p) : p \in {0, 64, L - 1}}
 Family == UNION {{[len |-> L, runs |-> P] : P \in Patterns(L)} : L \in FamilyLens}
 
+\* Mode "rl": run lists whose gaps and lengths come from value classes around the code-unit
+\* boundaries of the run-length encoding (1 unit < 8, 2 units < 64, 3 units < 512, ...); the first
+\* gap may be 0 (a run at position 0); trailing zeros from RLTails.
+RECURSIVE RLLists(_)
+RLLists(k) == IF k = 0 THEN {<< >>}
+              ELSE LET prev == RLLists(k - 1) IN
+                   prev \cup {Append(p, <<g, n>>) : p \in {q \in prev : Len(q) = k - 1},
+                                                   g \in (IF k = 1 THEN RLClasses \cup {0} ELSE RLClasses), n \in RLClasses}
+\* gap/length pairs -> absolute runs
+AbsRuns(gl) == FoldLeft(LAMBDA acc, p : LET prevEnd == IF Len(acc) = 0 THEN 0 ELSE acc[Len(acc)][1] + acc[Len(acc)][2]
+                                       IN Append(acc, <<prevEnd + p[1], p[2]>>), << >>, gl)
+RLFamily == {LET r == AbsRuns(gl) e == IF Len(r) = 0 THEN 0 ELSE r[Len(r)][1] + r[Len(r)][2]
+             IN [len |-> e + t, runs |-> r] : gl \in RLLists(RLMaxRuns), t \in RLTails}
+
 EdgeArgs(b) ==
     LET L == b.len
         k == Len(b.runs)
@@ -46,6 +60,8 @@ Init == \/ /\ Mode = "bits"
            /\ \E k \in 0..N : \E bits \in [1..k -> BOOLEAN] : B = FromBits(bits)
         \/ /\ Mode = "family"
            /\ B \in Family
+        \/ /\ Mode = "rl"
+           /\ B \in RLFamily
 Next == UNCHANGED B
 Spec == Init /\ [][Next]_B
 
@@ -60,7 +76,8 @@ Case ==
         sel   |-> [j \in 1..m |-> Select(B, args[j])],
         sel0  |-> [j \in 1..m |-> SelectZero(B, args[j])],
         pred  |-> [j \in 1..m |-> Pred(B, args[j])],
-        succ  |-> [j \in 1..m |-> Succ(B, args[j])]]
+        succ  |-> [j \in 1..m |-> Succ(B, args[j])],
+        runiter |-> RunItems(B)]
 
 Emit == WellFormed(B) /\ PrintT(<<"REPLAY", ToJson(Case)>>)
 =============================================================================
